@@ -24,8 +24,8 @@ LEVEL = "proof"
 LEVEL_TEXT = ("Theorem C05_sound (Props/C05.v): for every text, registry and integer range, whatever the model's compile() returns is well-typed per the RFC judgement (Spec/Types.v) and in range - an invariant "
               "through all parser functions; C05_complete_tokens: conversely, for every registry and range, every token sequence the typed token-level grammar derives (the RFC ABNF without its lexical layer, "
               "typing rules and integer range as side conditions, parentheses included) is accepted by Parser.parse, which returns the derived query (fuel monotonicity + prefix property of the Pratt loop + "
-              "one lemma per production); C05_grammar_typed; C05_check_args_partial / C05_singular_partial. That the lexer turns grammatical TEXT into such token sequences is not a theorem: "
-              "decided by differential testing over random registries and boundary integers.")
+              "one lemma per production); C05_grammar_typed; C05_check_args_partial / C05_singular_partial. C05_builtin_exact: at the level of TEXT, with the built-in registry compile() accepts exactly the strings of bf_grammar (the ABNF with the typing rules written in) whose integers are in range "
+              "(Proofs/AbnfSpellG.v, TextSoundB.v); random registries and boundary integers are decided by differential testing against the Coq typing judgement.")
 LEVEL_NOTE = "Trusted: Coq kernel; Spec/Types.v as a reading of the RFC; correspondence; extraction and driver."
 
 
